@@ -175,7 +175,7 @@ func (g *GoBackNConn) Send(data []byte) error {
 		sentBytes = 0
 		maxChunk  = g.cfg.maxChunkSize
 	)
-	for sentBytes < len(data) {
+	for {
 		packet := &PacketData{}
 
 		remainingBytes := len(data) - sentBytes
@@ -191,9 +191,14 @@ func (g *GoBackNConn) Send(data []byte) error {
 		if err := sendPacket(packet); err != nil {
 			return err
 		}
-	}
 
-	return nil
+		// Once the final chunk has been handed over we are done. Note
+		// that an empty payload is sent as a single, empty final chunk
+		// so that the peer receives exactly one message for it.
+		if packet.FinalChunk {
+			return nil
+		}
+	}
 }
 
 // Recv blocks until it gets a recv with the correct sequence it was expecting.
